@@ -178,9 +178,18 @@ func (propC02) Gen(seed uint64, ex map[string]bool) interface{} {
 			case c < 15:
 				ops = append(ops, c02Op{K: "load", Name: pick(r, renderable)})
 			case c < 17:
-				ops = append(ops, c02Op{K: "parse", Src: fmt.Sprintf("P%d:{{ v|upper }}{%% for i in l %%}{{ i }}{%% endfor %%}{{ tick() }}", r.N(3)), V: v})
+				src := fmt.Sprintf("P%d:{{ v|upper }}{%% for i in l %%}{{ i }}{%% endfor %%}{{ tick() }}", r.N(3))
+				if r.P(30) {
+					// a source that fails in the tokenizer or in the parser: the error paths release pooled objects too
+					src += pick(r, []string{"{{ unclosed", "{% if v", "{# open comment", "{% for %}", "{{ 1 + }}", "{% endif %}", "{% block %}x"})
+				}
+				ops = append(ops, c02Op{K: "parse", Src: src, V: v})
 			case c < 19:
-				ops = append(ops, c02Op{K: "register", Name: fmt.Sprintf("reg/t%d_%d", t, i), Src: fmt.Sprintf("R%d_%d:{{ v }}{{ tick() }}", t, i), V: v})
+				src := fmt.Sprintf("R%d_%d:{{ v }}{{ tick() }}", t, i)
+				if r.P(25) {
+					src += pick(r, []string{"{{ unclosed", "{% if v", "{# open comment", "{% for %}", "{{ 1 + }}"})
+				}
+				ops = append(ops, c02Op{K: "register", Name: fmt.Sprintf("reg/t%d_%d", t, i), Src: src, V: v})
 			default:
 				ops = append(ops, c02Op{K: "shared", V: v})
 			}
